@@ -165,8 +165,8 @@ class C20(EmitEngine):
                    "`@media a and b` is read as `@media a { @media b {` (merged queries are not demanded and not rejected)",
                    "declarations directly inside a selector-less @at-root and `&` inside it are not generated (Sass rejects the former)"]
     mc_runs = {
-        "quick": [("MC_Emit", "MC_Emit_C20_a.cfg", {"workers": 8}), ("MC_Emit", "MC_Emit_C20_b.cfg", {"workers": 8})],
-        "thorough": [("MC_Emit", "MC_Emit_C20_a.cfg", {"workers": 8}), ("MC_Emit", "MC_Emit_C20_b.cfg", {"workers": 8}),
-                     ("MC_Emit", "MC_Emit_C20_t.cfg", {"workers": 8, "timeout": 1500})],
+        "quick": [("MC_Emit", "MC_Emit_C20_a.cfg", {"workers": 4}), ("MC_Emit", "MC_Emit_C20_b.cfg", {"workers": 4})],
+        "thorough": [("MC_Emit", "MC_Emit_C20_a.cfg", {"workers": 4}), ("MC_Emit", "MC_Emit_C20_b.cfg", {"workers": 4}),
+                     ("MC_Emit", "MC_Emit_C20_t.cfg", {"workers": 4, "timeout": 1500})],
     }
     random_n = {"quick": 1500, "thorough": 20000}
